@@ -63,6 +63,7 @@ def gen_case(rng, quick):
         obs[k] = [dict(x=rng.choice([0.125, 0.25, 0.5]), Q2=float(rng.randint(3, 300))) for _ in range(rng.choice([1, 2, 3]))]
     if rng.random() < 0.4:
         obs["XSHERANCAVG_total" if proc != "CC" else "XSCHORUSCC_total"] = [dict(x=0.25, Q2=20.0, y=0.5), dict(x=0.5, Q2=40.0, y=0.25)]
+        obs["F1_total" if proc != "CC" else "FW_total"] = [dict(x=0.125, Q2=30.0, y=0.75)]      # cross sections whose names do not start with XS
     if rng.random() < 0.35:
         obs["FL_light" if "FL_light" not in obs else "F2_charm"] = []           # an observable without points
     return dict(theory=th, obs=dict(prDIS=proc), observables=obs, none_obs=rng.random() < 0.2)
@@ -104,6 +105,21 @@ def run_case(c):
             d = deep_diff(dict(out), dict(cur), "yaml%d" % cyc) or deep_diff(out.theory, cur.theory, "theory") or deep_diff(out.observables, cur.observables, "observables")
             if d:
                 return dict(format="yaml", cycle=cyc, difference=d)
+        # cycles that change the format: a loaded object is an Output like any other
+        for label, seq in (("tar-then-yaml", ("tar", "yaml", "tar")), ("yaml-then-tar", ("yaml", "tar", "yaml"))):
+            cur = out
+            for cyc, fmt in enumerate(seq, 1):
+                try:
+                    if fmt == "tar":
+                        p = os.path.join(tmp, "m_%s_%d.tar" % (label, cyc))
+                        cur.dump_tar(p); cur = Output.load_tar(p)
+                    else:
+                        cur = Output.load_yaml(io.StringIO(cur.dump_yaml()))
+                except Exception as e:  # noqa
+                    return dict(format=label, cycle=cyc, error="%s: %s" % (type(e).__name__, str(e)[:80]))
+                d = deep_diff(dict(out), dict(cur), "%s%d" % (label, cyc)) or deep_diff(out.theory, cur.theory, "theory") or deep_diff(out.observables, cur.observables, "observables")
+                if d:
+                    return dict(format=label, cycle=cyc, difference=d)
     return None
 
 
@@ -123,11 +139,11 @@ def patrol(chk, n):
             bad.append((c, r))
     chk.patrol["roundtrips_of_real_outputs"] = dict(cases=n, failures=len(bad), distribution=dist, crashed_not_counted=crashed,
                                                     rule="real runner outputs (SF + XS mixes, PTO 0..3 with scale-variation keys in their native, non-sorted order, TMC, observables "
-                                                         "with no points, a None observable): two dump_tar/load_tar cycles and two dump_yaml/load_yaml cycles; every field, key order, "
+                                                         "with no points, a None observable): two dump_tar/load_tar cycles, two dump_yaml/load_yaml cycles and two mixed sequences (tar-yaml-tar, yaml-tar-yaml); every field, key order, "
                                                          "value and error compared bit-for-bit, runcards compared, predictions for a toy PDF with xiR, xiF != 1 compared")
     for c, r in bad[:3]:
         what = r.get("difference") or r.get("error")
-        chk.violation("roundtrip:%s:%s" % (r["format"], "empty-observable" if ("IndexError" in str(what) and any(len(v) == 0 for v in c["observables"].values())) else str(what)[:40]),
+        chk.violation("roundtrip:%s:%s" % (r["format"], ("RepresenterError" if "RepresenterError" in str(what) else "ConstructorError") if r["format"] in ("tar-then-yaml", "yaml-then-tar") and r.get("error") else "empty-observable" if ("IndexError" in str(what) and any(len(v) == 0 for v in c["observables"].values())) else str(what)[:40]),
                       "%s round trip (cycle %d) is not lossless: %s" % (r["format"], r["cycle"], what), dict(case=c, result=r))
     return bad
 
